@@ -55,21 +55,30 @@ impl Engine for PartEngine {
                 let first = if s128 <= wi { s128 * wal } else { wi * wal + (s128 - wi) * was };
                 let k = if s128 < wi { wal } else { was };
                 let wantlen = ((first + k) * e as u128).min(l as u128) - (first * e as u128).min(l as u128);
+                // the oracle applies to quadruples that are the RFC partition of some B for (l, e), with sbn < N and in-range
+                // sizes; hostile quadruples / out-of-range SBNs are compared with the model only (callers guard them: C04)
+                let t = if e == 0 { 0 } else { ceil128(l as u128, e as u128) };
+                let nn = if wal > 0 && was > 0 && wi * wal <= t && (t - wi * wal) % was == 0 { wi + (t - wi * wal) / was } else { 0 };
+                let genuine = e > 0 && l > 0 && nn > 0 && s128 < nn && wi < nn && (wal == was + 1 || (wi == 0 && wal == was))
+                    && rfc(wal, l as u128, e as u128) == (wal, was, wi, nn);
                 match r {
                     Ok(v) => {
-                        if v as u128 != wantlen {
+                        if genuine && v as u128 != wantlen {
                             o.fail("bl-ne-rfc", &format!("block_length = {}, RFC = {}", v, wantlen));
                         }
                         format!("ok {}", v)
                     }
                     Err(loc) => {
-                        o.fail("bl-panic", &format!("block_length panics at {}", loc));
+                        if genuine {
+                            o.fail("bl-panic", &format!("block_length panics at {}", loc));
+                        }
                         "PANIC".to_string()
                     }
                 }
             }
             ("snd", 3) => sender_blocks(n[0], n[1], n[2], o),
             ("fti", 4) => fti_reconstruct(n[0], n[1], n[2], n[3], o),
+            ("sbl", 3) => sender_wire_sbl(n[0], n[1], n[2], o),
             ("rcv", 5) => receiver_blocks(n[0], n[1] != 0, n[2], n[3], n[4], o),
             ("rq", 3) => raptor_reconstruct(true, n[0], n[1], n[2], o),
             ("rp", 3) => raptor_reconstruct(false, n[0], n[1], n[2], o),
@@ -117,6 +126,58 @@ impl ObjectWriter for RecWriter {
     }
     fn enable_md5_check(&self) -> bool {
         false
+    }
+}
+
+/// C07 (5c): the source block length a REAL sender writes into the payload id of every packet of block sbn under
+/// RS under-specified (FEC 129); observation `ok k0 k1 ...` (one value per block; all packets of a block must agree).
+fn sender_wire_sbl(b: u64, l: u64, e: u64, o: &mut Oracle) -> String {
+    let r = guarded(move || -> Result<Vec<u64>, String> {
+        let oti = flute::core::Oti::new_reed_solomon_rs28_under_specified(e as u16, b as u16, 1).map_err(|e| format!("{:?}", e))?;
+        let mut sender = mk_sender(&oti, l)?;
+        let now = std::time::UNIX_EPOCH + std::time::Duration::from_secs(1_700_000_000);
+        let mut sbls: Vec<Option<u64>> = Vec::new();
+        for _ in 0..200_000 {
+            let data = match sender.read(now) {
+                Some(d) => d,
+                None => break,
+            };
+            let pkt = flute::core::alc::parse_alc_pkt(&data).map_err(|e| format!("{:?}", e))?;
+            if pkt.lct.toi == 0 || l == 0 {
+                continue;
+            }
+            let pid = flute::core::alc::parse_payload_id(&pkt, &oti).map_err(|e| format!("{:?}", e))?;
+            let k = pid.source_block_length.ok_or("payload id without source block length")? as u64;
+            let sbn = pid.sbn as usize;
+            while sbls.len() <= sbn {
+                sbls.push(None);
+            }
+            match sbls[sbn] {
+                None => sbls[sbn] = Some(k),
+                Some(x) if x != k => return Err(format!("block {} announced with {} and {}", sbn, x, k)),
+                _ => {}
+            }
+        }
+        Ok(sbls.into_iter().map(|x| x.unwrap_or(0)).collect())
+    });
+    match r {
+        Ok(Ok(ks)) => {
+            let (al, asm, i, n) = rfc(b as u128, l as u128, e as u128);
+            let ok = ks.len() as u128 == n && ks.iter().enumerate().all(|(s, k)| *k as u128 == if (s as u128) < i { al } else { asm });
+            if !ok {
+                o.fail("sbl-ne-rfc", &format!("wire source block lengths {:?} differ from the RFC 5052 partition {:?}", ks, (al, asm, i, n)));
+            }
+            let mut s = "ok".to_string();
+            for k in ks {
+                s.push_str(&format!(" {}", k));
+            }
+            s
+        }
+        Ok(Err(e)) => format!("ERR {}", e.chars().take(60).collect::<String>().replace(' ', "_")),
+        Err(loc) => {
+            o.fail("sbl-panic", &format!("sender panics at {}", loc));
+            "PANIC".to_string()
+        }
     }
 }
 
@@ -471,6 +532,32 @@ pub fn run(ctx: &mut Ctx, eng: &mut dyn Engine) {
         }
     }
     ctx.sample("part bp 3 23 4 -> ok 3 3 0 2 ; part bl 3 3 0 23 4 1 -> ok 11".to_string());
+    // hostile block_length calls (what an attacker-chosen SBN / inconsistent quadruple would reach if callers did not
+    // guard): model and code must agree on value or PANIC
+    ctx.case("hostile-bl");
+    let nh = if ctx.tier_thorough { 60_000 } else { 6_000 };
+    for i in 0..nh {
+        let b = 1 + rng.below(40);
+        let e = 1 + rng.below(20);
+        let l = rng.below(3000);
+        let q = rfc(b as u128, l as u128, e as u128);
+        let (al, asm, nl, n) = (q.0 as u64, q.1 as u64, q.2 as u64, q.3 as u64);
+        let op = match rng.below(4) {
+            0 => format!("part bl {} {} {} {} {} {}", al, asm, nl, l, e, n + rng.below(3)),
+            1 => format!("part bl {} {} {} {} {} {}", al, asm, nl, l, e, *rng.pick(&[u32::MAX as u64, u32::MAX as u64 - 1, 65536, 1 << 31])),
+            2 => format!("part bl {} {} {} {} {} {}", rng.below(50), rng.below(50), rng.below(20), l, e, rng.below(30)),
+            _ => format!("part bl {} {} {} {} {} {}", rng.bits(40) as u64, rng.bits(40) as u64, rng.bits(33) as u64, rng.bits(48) as u64, 1 + rng.bits(16) as u64 % 65535, rng.bits(32) as u64),
+        };
+        let obs = ctx.step(eng, &op);
+        ctx.evaluations += 1;
+        ctx.count(if obs == "PANIC" { "hostile-bl-panic" } else { "hostile-bl-ok" });
+        if obs == "PANIC" {
+            ctx.nontrivial(&op);
+        }
+        if i < 2 {
+            ctx.sample(format!("{} -> {}", op, obs));
+        }
+    }
     // RaptorQ / Raptor FTI round trip: B' reconstructed by the real parser, whole field ranges, Z = N(B,L,E) and arbitrary Z
     ctx.case("fti");
     let nf = if ctx.tier_thorough { 200_000 } else { 20_000 };
@@ -528,6 +615,22 @@ pub fn run(ctx: &mut Ctx, eng: &mut dyn Engine) {
             ctx.sample(format!("part snd {} {} {} -> {}", b, l, e, obs));
         }
     }
+    // RS under-specified: source block lengths on the wire
+    for i in 0..ns {
+        let e = *rng.pick(&[1u64, 2, 3, 4, 5, 16]);
+        let b = *rng.pick(&[1u64, 2, 3, 4, 5, 7, 8, 16, 40]);
+        let t = rng.range(1, 10 * b);
+        let l = (t * e).saturating_sub(rng.below(e)).max(1);
+        let obs = ctx.step(eng, &format!("part sbl {} {} {}", b, l, e));
+        ctx.evaluations += 1;
+        if obs.split(' ').count() >= 3 {
+            ctx.nontrivial(&format!("sbl {} {} {}", b, l, e));
+        }
+        ctx.count("wire-sbl-rs-underspecified");
+        if i < 2 {
+            ctx.sample(format!("part sbl {} {} {} -> {}", b, l, e, obs));
+        }
+    }
     // real sender -> real receiver: the receiver-side partition (all schemes, in-band and FDT-borne OTI)
     for i in 0..ns {
         let scheme = rng.below(5);
@@ -547,7 +650,8 @@ pub fn run(ctx: &mut Ctx, eng: &mut dyn Engine) {
         };
         let q = rfc(b as u128, l as u128, e as u128);
         // Raptor/RaptorQ codec libraries need k >= 4 symbols per block and aligned last symbols (owned by C08)
-        if scheme >= 3 && (q.1 < 4 || q.3 > 255 || l % e != 0) {
+        // (Raptor cuts an unaligned last block into semi-equal symbols - known finding of C08; RaptorQ pads)
+        if scheme >= 3 && (q.1 < 4 || q.3 > 255 || (scheme == 4 && l % e != 0)) {
             continue;
         }
         if scheme == 1 && b + 2 > 255 {
